@@ -24,18 +24,21 @@ func TestReplay(t *testing.T) { pbt.Replay(t) }
 
 // Case: a DTLS 1.2 session, traffic, export/import point(s), more traffic.
 type Case struct {
-	Suite   uint16   `json:"suite"`
-	CIDC    int      `json:"cidc,omitempty"`
-	CIDS    int      `json:"cids,omitempty"`
-	SRTP    []uint16 `json:"srtp,omitempty"`
-	ALPN    []string `json:"alpn,omitempty"`
-	EMS     int      `json:"ems,omitempty"`
-	CCert   bool     `json:"ccert,omitempty"`
-	A       int      `json:"a"`    // records client->server before the export
-	B       int      `json:"b"`    // records server->client before the export
-	Side    string   `json:"side"` // C, S, both
-	C2      int      `json:"c2"`   // records each way after the import
-	Second  bool     `json:"second,omitempty"`
+	Suite  uint16   `json:"suite"`
+	CIDC   int      `json:"cidc,omitempty"`
+	CIDS   int      `json:"cids,omitempty"`
+	SRTP   []uint16 `json:"srtp,omitempty"`
+	ALPN   []string `json:"alpn,omitempty"`
+	EMS    int      `json:"ems,omitempty"`
+	CCert  bool     `json:"ccert,omitempty"`
+	A      int      `json:"a"`    // records client->server before the export
+	B      int      `json:"b"`    // records server->client before the export
+	Side   string   `json:"side"` // C, S, both
+	C2     int      `json:"c2"`   // records each way after the import
+	Second bool     `json:"second,omitempty"`
+	// NewAddr: the resumed endpoint shows up from a different address (process restarted behind a NAT):
+	// with connection IDs and return routability negotiated the untouched peer validates the new path
+	NewAddr bool     `json:"newaddr,omitempty"`
 	Corrupt *Corrupt `json:"corrupt,omitempty"`
 }
 
@@ -297,8 +300,27 @@ func run(c Case, r *pbt.R) {
 					return
 				}
 			}
+			if c.NewAddr && c.Side != "both" {
+				moved := sides[0].Name
+				alias := moved + "2"
+				p.Net.Redirect[alias] = moved
+				p.Net.SrcRewrite = func(ev *vnet.Event) string {
+					if ev.From == moved {
+						return alias
+					}
+
+					return ""
+				}
+				r.Class("resumed-from-new-address")
+			}
 			if !exchange(p, byte(2+round), c.C2, c.C2, r, "after-import") {
 				return
+			}
+			if c.NewAddr && c.Side != "both" {
+				// the path validation triggered by the first exchange has run by now: data must still flow
+				if !exchange(p, byte(6+round), max(c.C2, 1), max(c.C2, 1), r, "after-import-and-migration") {
+					return
+				}
 			}
 		}
 		if !seqMonotone(p, cidLens(&c, env), r) {
@@ -531,6 +553,7 @@ func genBase(t *rapid.T) Case {
 	case 3:
 		c.CIDC, c.CIDS = -1, rapid.IntRange(1, 8).Draw(t, "cids")
 	}
+	c.NewAddr = rapid.IntRange(0, 2).Draw(t, "newaddr") == 0
 	if rapid.IntRange(0, 2).Draw(t, "srtp") == 0 {
 		c.SRTP = []uint16{uint16(rapid.IntRange(1, 8).Draw(t, "profile"))} //nolint:gosec
 	}
